@@ -1,0 +1,7 @@
+//go:build !verif
+
+package gkvlite
+
+// verifPoint is a no-op unless the package is built with the "verif" tag,
+// in which case it calls out to an externally installed monitor/scheduler.
+func verifPoint(string) {}
